@@ -30,8 +30,10 @@ def endOf : K → List (Seg K) → K
   | x, [] => x
   | _, s :: r => endOf (s.xold + s.h) r
 
-theorem tol_pos : (0 : K) < (tol : K) := by
-  unfold tol; rw [num_lit]; positivity
+theorem tol_pos (a : K) : (0 : K) < (tol a : K) := by
+  unfold tol
+  simp only [num_lit, num_fmax]
+  exact lt_of_lt_of_le (by positivity) (le_max_right _ _)
 
 theorem keepSeg_iff (h : K) : keepSeg h ↔ h ≠ 0 := by
   unfold keepSeg
@@ -50,7 +52,7 @@ theorem keepSeg_iff (h : K) : keepSeg h ↔ h ≠ 0 := by
     exact hne (by simpa using this)
 
 theorem hit_iff (t : K) (s : Seg K) :
-    hit t s = true ↔ min s.xold (s.xold + s.h) - tol ≤ t ∧ t ≤ max s.xold (s.xold + s.h) + tol := by
+    hit t s = true ↔ min s.xold (s.xold + s.h) - tol (min s.xold (s.xold + s.h)) ≤ t ∧ t ≤ max s.xold (s.xold + s.h) + tol (max s.xold (s.xold + s.h)) := by
   unfold hit inSeg segLeft segRight
   simp [ge_iff_le]
 
@@ -58,7 +60,8 @@ theorem hit_iff (t : K) (s : Seg K) :
 theorem hit_of_mem {t : K} {s : Seg K} (h1 : min s.xold (s.xold + s.h) ≤ t) (h2 : t ≤ max s.xold (s.xold + s.h)) :
     hit t s = true := by
   rw [hit_iff]
-  have := tol_pos (K := K)
+  have := tol_pos (min s.xold (s.xold + s.h))
+  have := tol_pos (max s.xold (s.xold + s.h))
   constructor <;> linarith
 
 theorem endOf_ge (fwd : Bool) (x : K) (segs : List (Seg K)) (hc : Chain fwd x segs) :
@@ -131,6 +134,68 @@ theorem chain_cover (fwd : Bool) (x : K) (segs : List (Seg K)) (hc : Chain fwd x
             · rw [max_eq_right (by linarith)]; linarith
         obtain ⟨s'', hm, hs⟩ := ih _ hr hne' this
         exact ⟨s'', List.mem_cons_of_mem _ hm, hs⟩
+
+/-- the first segment of a chain starts at the lower end of the span (forward) / upper end (backward), the last one ends
+    at the other end -/
+theorem chain_ends (fwd : Bool) (x : K) (s : Seg K) (r : List (Seg K)) (hc : Chain fwd x (s :: r)) :
+    (∃ a ∈ s :: r, min a.xold (a.xold + a.h) = min x (endOf x (s :: r))) ∧
+    (∃ a ∈ s :: r, max a.xold (a.xold + a.h) = max x (endOf x (s :: r))) := by
+  have hstrict := endOf_strict fwd x s r hc
+  obtain ⟨l, _, hlm, hle⟩ := getLast_endOf fwd x s r
+  -- every step has the sign of the direction
+  have hsign : ∀ (segs : List (Seg K)) (y : K), Chain fwd y segs → ∀ a ∈ segs, stepPos fwd a.h := by
+    intro segs
+    induction segs with
+    | nil => intro y _ a ha; cases ha
+    | cons b rest ih =>
+      intro y hcb a ha
+      obtain ⟨_, hp, hr⟩ := hcb
+      rcases List.mem_cons.mp ha with rfl | ha'
+      · exact hp
+      · exact ih _ hr a ha'
+  have hs := hsign _ _ hc s (by simp)
+  have hl := hsign _ _ hc l hlm
+  have hx : s.xold = x := hc.1
+  cases fwd <;> simp only [stepPos, if_true, if_false, Bool.false_eq_true] at hstrict hs hl
+  · -- backward: the first segment carries the upper end, the last one the lower end
+    refine ⟨⟨l, hlm, ?_⟩, ⟨s, by simp, ?_⟩⟩
+    · rw [min_eq_right (by linarith), min_eq_right hstrict.le, hle]
+    · rw [max_eq_left (by linarith), max_eq_left hstrict.le, hx]
+  · refine ⟨⟨s, by simp, ?_⟩, ⟨l, hlm, ?_⟩⟩
+    · rw [min_eq_left (by linarith), min_eq_left hstrict.le, hx]
+    · rw [max_eq_right (by linarith), max_eq_right hstrict.le, hle]
+
+/-- every point of the span, widened at each end by the slack of that end, is found in one of the steps (the range test of
+    `Solution::sol` and the segment lookup use the same slack `time_tol` at the same end points) -/
+theorem chain_cover_tol (fwd : Bool) (x : K) (s : Seg K) (r : List (Seg K)) (hc : Chain fwd x (s :: r)) (t : K)
+    (h1 : min x (endOf x (s :: r)) - tol (min x (endOf x (s :: r))) ≤ t)
+    (h2 : t ≤ max x (endOf x (s :: r)) + tol (max x (endOf x (s :: r)))) :
+    ∃ a ∈ s :: r, hit t a = true := by
+  have hstrict := endOf_strict fwd x s r hc
+  obtain ⟨⟨a1, ha1, he1⟩, ⟨a2, ha2, he2⟩⟩ := chain_ends fwd x s r hc
+  have hmm : ∀ a : Seg K, min a.xold (a.xold + a.h) ≤ max a.xold (a.xold + a.h) := fun a => le_trans (min_le_left _ _) (le_max_left _ _)
+  by_cases hlow : t < min x (endOf x (s :: r))
+  · -- below the span: the segment that carries the lower end
+    refine ⟨a1, ha1, ?_⟩
+    rw [hit_iff, he1]
+    refine ⟨h1, ?_⟩
+    have := tol_pos (max a1.xold (a1.xold + a1.h))
+    have := hmm a1
+    linarith
+  · by_cases hhigh : max x (endOf x (s :: r)) < t
+    · refine ⟨a2, ha2, ?_⟩
+      rw [hit_iff, he2]
+      refine ⟨?_, h2⟩
+      have := tol_pos (min a2.xold (a2.xold + a2.h))
+      have := hmm a2
+      linarith
+    · push_neg at hlow hhigh
+      have hin : if fwd then x ≤ t ∧ t ≤ endOf x (s :: r) else endOf x (s :: r) ≤ t ∧ t ≤ x := by
+        cases fwd <;> simp only [if_true, if_false, Bool.false_eq_true] at hstrict ⊢
+        · rw [min_eq_right hstrict.le] at hlow; rw [max_eq_left hstrict.le] at hhigh; exact ⟨hlow, hhigh⟩
+        · rw [min_eq_left hstrict.le] at hlow; rw [max_eq_right hstrict.le] at hhigh; exact ⟨hlow, hhigh⟩
+      obtain ⟨a, hm, hl, hr⟩ := chain_cover fwd x (s :: r) hc (by simp) t hin
+      exact ⟨a, hm, hit_of_mem hl hr⟩
 
 /-- `from_segments` turns the handler's list (zero-length steps possible) into a strict chain with the same ends -/
 theorem fromSegments_chain (fwd : Bool) (x : K) (raw : List (Seg K)) (hw : WeakChain fwd x raw) :
